@@ -307,7 +307,7 @@ class Hist:
             g.load()
         N = cfg['N']
         mgmt = cfg.get('ops') == 'mgmt'
-        alphabet = ('call', 'dump', 'load', 'clear', 'clear_keep', 'off', 'on', 'swap')
+        alphabet = ('call', 'dump', 'load', 'clear', 'clear_keep', 'off', 'on', 'swap', 'loadk')
         fixed = cfg.get('pattern')           # compaction histories: step i re-uses atom pattern[i] (None = fresh)
         atoms = []
         script = cfg.get('script')           # a fixed sequence of operations (named scenarios); arguments stay symbolic
@@ -330,6 +330,11 @@ class Hist:
                 atoms.append(x)
                 if not st.call(i, x):
                     return
+            elif op == 'loadk':
+                # keyed prefetch f.load(k1, k2): one key of an argument seen before (if any), one that the archive cannot hold
+                ks = [g.key(atoms[ctx.choice(len(atoms), 'lk')])] if atoms else []
+                ks.append(g.key(ctx.atom(ArgSort, 'x') if cfg['backend'] not in PERSISTENT_ALL else 99))
+                st.mgmt(i, op, ks)
             else:
                 st.mgmt(i, op)
             if cfg.get('second') and i == cfg['second'] - 1:
@@ -352,7 +357,8 @@ class _State:
         self.last_use = {}       # class id -> step
         self.count = {}          # class id -> uses since it entered memory
         self.ever = []           # bound argument tuples evaluated so far
-        self.tracked = True      # recency/frequency ground truth valid (no bulk load / preload)
+        self.tracked = True      # recency/frequency ground truth valid
+        self.unknown = set()     # key classes that became resident through load(): no use record is known for them
         if cfg.get('preload'):
             self.tracked = False
 
@@ -592,9 +598,12 @@ class _State:
         # update ground truth
         for c in removed:
             self.count.pop(c, None)
+            self.unknown.discard(c)
         if q in A or q in B:
             self.count[q] = self.count.get(q, 0) + 1 if q in B else 1
         self.last_use[q] = step
+        if self.algo in ('lru', 'mru'):
+            self.unknown.discard(q)          # used now: from here on its recency is known
         for c in list(self.count):
             if c not in A:
                 self.count.pop(c, None)
@@ -606,6 +615,10 @@ class _State:
     def check_policy(self, lab, q, B, A, removed):
         ctx = self.ctx
         canary = self.canary
+        unk = self.unknown
+        if self.algo in ('lru', 'mru') and any(c in unk for c in B):
+            # a resident entry without a use record (loaded, never called): the victim is not judged
+            return
         if self.algo == 'lru':
             victim = min(B, key=lambda c: self.last_use[c])
             if canary:
@@ -622,20 +635,25 @@ class _State:
         elif self.algo == 'lfu':
             cnt = dict(self.count)
             cnt[q] = 1
-            ok = bool(removed) and all(cnt[v] <= cnt[s] for v in removed for s in A)
+            known = lambda c: c in cnt and c not in unk
+            ok = bool(removed) and all(cnt[v] <= cnt[s] for v in removed for s in A if known(v) and known(s))
             ctx.check(ok if not canary else not ok, lab, {'kind': 'victim used more often than a survivor'})
 
     # -- management operations
-    def mgmt(self, i, op):
+    def mgmt(self, i, op, keys=()):
         ctx, g = self.ctx, self.g
         P = self.cfg['props'][0]
         try:
             mem0, arch0 = self.snap()
             if op == 'dump':
                 g.dump()
-            elif op == 'load':
-                g.load()
-                self.tracked = False
+            elif op in ('load', 'loadk'):
+                g.load(*keys)
+                # entries that were resident before keep their use records; what the load brought in has none
+                after = dict(g.__cache__())
+                for k in after:
+                    if k not in mem0:
+                        self.unknown.add(self.cid(k))
             elif op in ('clear', 'clear_keep'):
                 if op == 'clear':
                     g.clear()
@@ -746,6 +764,8 @@ def plan(prop, tier):
         'toggle': [C, C, 'off', C, C, 'on', C, C],           # evictions while archiving is switched off
         'swap': [C, C, C, 'swap', C, C],                     # evict, reload, replace the archive, evict again
         'attach': ['swap', C, C, C],                         # the archive is attached after decoration
+        'midload': [C, C, C, 'load', C, C, C],               # a bulk load() in mid-session: resident entries keep their use records
+        'prefetch': [C, 'loadk', C, C, C],                   # a keyed load(k...) of keys the archive may not hold
     }
 
     def add_scenarios(props_raises=True):
@@ -794,6 +814,9 @@ def plan(prop, tier):
                                 continue
                             add(module=m, algo=a, purge=p, backend=b, keymap=km, N=N)
                     add(module=m, algo=a, purge=p, backend='cached_dict', keymap='raw', N=Nm, ops='mgmt')
+                    if a in ('no', 'inf', 'lru'):
+                        add(module=m, algo=a, purge=p, backend='cached_dict', keymap='raw', N=3, ops='mgmt', raises=True,
+                            alphabet=('call', 'load', 'dump', 'clear'))
                     if not q:
                         add(module=m, algo=a, purge=p, backend='direct', keymap='raw', N=3, ops='mgmt')
                 if prop in ('C01', 'C15'):
@@ -846,6 +869,8 @@ def plan(prop, tier):
             for a in BOUNDED:
                 # a bulk load() that fills or overfills the cache, then calls (hits on entries without a use record)
                 add(module=m, algo=a, backend='cached_dict', N=3 if q else 4, preload=3, scenario='preload')
+                for b in ('none', 'cached_dict'):
+                    add(module=m, algo=a, backend=b, script=SCRIPTS['midload'], maxsize=2, scenario='midload')
             # LRU queue compaction: maxsize=1, 11 uses of one key, then two free calls
             add(module=m, algo='lru', backend='none', N=13, maxsize=1, pattern=[None] + [0] * 10, scenario='compaction1')
             if not q:
